@@ -16,7 +16,8 @@ import json, os, re, shutil, subprocess, sys, time
 src, pid, k = sys.argv[1], sys.argv[2], sys.argv[3]
 checks = sys.argv[4:] or [pid]
 ENV = dict(os.environ, GOFLAGS="-mod=mod", GOPROXY="off", GOSUMDB="off", GOTOOLCHAIN="local")
-work = "/tmp/seedeval/%s-%s" % (pid, k)
+outk = str(int(k) + int(os.environ.get("SEEDEVAL_OFFSET", "0")))  # round 2 files patch1..3 are stored as <ID>-4..6
+work = "/tmp/seedeval/%s-%s" % (pid, outk)
 shutil.rmtree(work, ignore_errors=True)
 os.makedirs(work)
 repo = os.path.join(work, "repo")
@@ -28,7 +29,7 @@ def sh(cmd, cwd=None, timeout=1800):
 patch = os.path.join(src, "patch%s.diff" % k)
 demo = os.path.join(src, "demo%s_test.go" % k)
 notes = os.path.join(src, "notes%s.md" % k)
-meta = {"property": pid, "k": int(k), "base_commit": sh("git -C /repo rev-parse --short HEAD")[1].strip(), "ran": []}
+meta = {"property": pid, "k": int(outk), "base_commit": sh("git -C /repo rev-parse --short HEAD")[1].strip(), "ran": []}
 sh("git -C /repo worktree prune")
 rc, out = sh("git -C /repo worktree add -f --detach %s HEAD" % repo)
 assert rc == 0, out
@@ -82,7 +83,7 @@ try:
 finally:
     sh("git -C /repo worktree remove --force %s" % repo)
     shutil.rmtree(work, ignore_errors=True)
-    out = "/verif/seeded/%s-%s" % (pid, k)
+    out = "/verif/seeded/%s-%s" % (pid, outk)
     os.makedirs(out, exist_ok=True)
     for a, b in ((patch, "patch.diff"), (demo, "demo_test.go"), (notes, "notes.md")):
         if os.path.exists(a):
@@ -95,4 +96,4 @@ finally:
         det.update(meta.get("detection", {}))
         meta["detection"] = det
     json.dump(meta, open(mp, "w"), indent=1)
-    print(pid, k, "confirmed" if meta.get("confirmed") else "NOT CONFIRMED", json.dumps(meta.get("detection", {})))
+    print(pid, outk, "confirmed" if meta.get("confirmed") else "NOT CONFIRMED", json.dumps(meta.get("detection", {})))
